@@ -300,29 +300,11 @@ func (s *redisServer) execSet(w *bufio.Writer, args [][]byte) error {
 			if num <= 0 {
 				return s.respondError(w, "invalid expire time in set")
 			}
-			switch opt {
-			case "EX":
-				now := time.Now()
-				expireAt = uint64(now.Add(time.Duration(num) * time.Second).Unix())
-				if expireAt <= uint64(now.Unix()) {
-					expireAt = uint64(now.Add(time.Second).Unix())
-				}
-			case "PX":
-				now := time.Now()
-				expireAt = uint64(now.Add(time.Duration(num) * time.Millisecond).Unix())
-				if expireAt <= uint64(now.Unix()) {
-					expireAt = uint64(now.Add(time.Second).Unix())
-				}
-			case "EXAT":
-				expireAt = uint64(num)
-			case "PXAT":
-				sec := num / 1000
-				nsec := (num % 1000) * int64(time.Millisecond)
-				expireAt = uint64(time.Unix(sec, nsec).Unix())
-			}
-			if expireAt == 0 {
+			at, ok := expireAtSeconds(opt, num, time.Now())
+			if !ok {
 				return s.respondError(w, "invalid expire time in set")
 			}
+			expireAt = at
 			hasExpire = true
 			i += 2
 		case "KEEPTTL":
@@ -354,6 +336,35 @@ func (s *redisServer) execSet(w *bufio.Writer, args [][]byte) error {
 		return writeSimpleString(w, "OK")
 	}
 	return writeNil(w)
+}
+
+// expireAtSeconds converts a validated (> 0) SET expire argument into the
+// absolute expiry second stored with the entry. Like Redis it refuses values
+// that overflow once converted to / added as milliseconds.
+func expireAtSeconds(opt string, num int64, now time.Time) (uint64, bool) {
+	ms := num
+	if opt == "EX" || opt == "EXAT" {
+		if num > math.MaxInt64/1000 {
+			return 0, false
+		}
+		ms = num * 1000
+	}
+	relative := opt == "EX" || opt == "PX"
+	if relative {
+		nowMs := now.UnixMilli()
+		if ms > math.MaxInt64-nowMs {
+			return 0, false
+		}
+		ms += nowMs
+	}
+	at := uint64(ms / 1000)
+	if relative && at <= uint64(now.Unix()) {
+		at = uint64(now.Unix()) + 1 // sub-second TTLs still live until the next second
+	}
+	if at == 0 {
+		at = 1 // an instant inside the first second of the epoch: long expired, but 0 means "no expiry"
+	}
+	return at, true
 }
 
 // nonNil maps a nil slice to an empty one: an empty string is a value, not a nil reply.
